@@ -204,8 +204,12 @@ fn tql2<T: RealNumber, M: BaseMatrix<T>>(V: &mut M, d: &mut [T], e: &mut [T]) {
 
     let mut f = T::zero();
     let mut tst1 = T::zero();
+    // negligibility is judged against the whole matrix, not only the part processed so far: with a
+    // running maximum, noise-level trailing blocks keep being iterated down to the denormal range
     for l in 0..n {
         tst1 = T::max(tst1, d[l].abs() + e[l].abs());
+    }
+    for l in 0..n {
 
         let mut m = l;
 
@@ -512,7 +516,7 @@ fn hqr2<T: RealNumber, M: BaseMatrix<T>>(A: &mut M, V: &mut M, d: &mut [T], e: &
                         nn -= 2;
                     }
                 } else {
-                    if its == 30 {
+                    if its == 30 * usize::max(10, n) {
                         panic!("Too many iterations in hqr");
                     }
                     if its == 10 || its == 20 {
